@@ -40,7 +40,7 @@ A_COMMA = ["x,y", "x", "x,y,z", "w"]
 B_COMMA = ["z", "y,z", "", ",z"]
 
 
-def mk_records(rng, n, ragged, commas=False):
+def mk_records(rng, n, ragged, commas=False, empty_mix=0.0):
     """n records as lists of (key, value) pairs; every record has a unique id and an always-present
     int k and string s; a, b, i are missing with probability `ragged`; some carry an extra field.
     commas: group-by values contain the default OFS (the stream is then read/written with IFS ';'),
@@ -48,10 +48,12 @@ def mk_records(rng, n, ragged, commas=False):
     out = []
     for j in range(n):
         rec = [("id", f"r{j+1}")]
+        # empty_mix: on purpose, the same stream holds records whose group-by value is the EMPTY STRING (a legitimate
+        # group) and records LACKING the field (member of no group): the two must never be confused
         if rng.random() >= ragged:
-            rec.append(("a", rng.choice(A_COMMA if commas else A_POOL)))
+            rec.append(("a", "" if rng.random() < empty_mix else rng.choice(A_COMMA if commas else A_POOL)))
         if rng.random() >= ragged:
-            rec.append(("b", rng.choice(B_COMMA if commas else B_POOL)))
+            rec.append(("b", "" if rng.random() < empty_mix else rng.choice(B_COMMA if commas else B_POOL)))
         rec.append(("k", str(rng.randint(0, 40))))
         if rng.random() >= ragged:
             rec.append(("i", str(rng.randint(-20, 60))))
@@ -330,9 +332,11 @@ def sel_case(case):
     ragged = case.get("ragged", 0.0)
     commas = bool(case.get("commas"))
     sep = ";" if commas else ","
-    recs = mk_records(rng, n, ragged, commas)
+    recs = mk_records(rng, n, ragged, commas, case.get("empty_mix", 0.0))
     sigbase = {"verb": verb, "form": case.get("form", "")}
     res = case_result(_h("sel", sorted((k, repr(v)) for k, v in case.items())))
+    if case.get("empty_mix"):
+        bump(res, "cases_mixing_empty_value_and_missing_field")
     bump(res, "verb:" + verb)
     cands = None
     pre = ["--records-per-batch", str(b)] if b else []
@@ -486,21 +490,22 @@ def dup_case(case):
 def catn_case(case):
     rng = random.Random(case["seed"])
     n, b, g = case["n"], case["b"], case["g"]
-    recs = mk_records(rng, n, case.get("ragged", 0.0))
+    recs = mk_records(rng, n, case.get("ragged", 0.0), False, case.get("empty_mix", 0.0))
     name = case.get("name")
     argv = (["--records-per-batch", str(b)] if b else []) + ["cat"] + (["-N", name] if name else ["-n"]) + ["-g", ",".join(g)]
     fld = name or "n"
     sigbase = {"verb": "cat-n-g", "form": "N" if name else "n"}
-    res = case_result(_h("catn", g, n, b, name, case["seed"]))
+    res = case_result(_h("catn", g, n, b, name, case.get("empty_mix"), case["seed"]))
     bump(res, "verb:cat-n-g")
     stdin = text_of(recs)
     r = _run(argv, stdin, res, {"sigbase": sigbase, "n": n})
     if r is None:
         return res
     got = split_out(r.stdout)
-    # records lacking a group-by field: what cat does with them is not documented -> they are only
-    # required to be unaltered if present; records having the fields must all be there, in input
-    # order, numbered 1..n per group.
+    # Every group that HAS the field(s) - including the group whose value is the empty string - must be numbered
+    # exactly 1..n in stream order, so a record lacking a field can never consume or share a number of a real
+    # group. What cat does with the field-lacking records themselves (own counter, pass-through, drop) is not
+    # settled by `mlr cat --help`: they are only required to be unaltered (apart from the counter) if present.
     lines = {line_of(x): i for i, x in enumerate(recs)}
     keyed = [(i, gkey(x, g)) for i, x in enumerate(recs)]
     cnt = {}
@@ -537,15 +542,60 @@ def catn_case(case):
         p = 0
         while p < len(seen) and p < len(exp) and seen[p] == exp[p]:
             p += 1
-        add_violation(res, dict(sigbase, kind="numbering"),
-                      f"mlr {' '.join(argv)} on {n} records: per-group numbering differs from 1..n at keyed output record {p + 1}",
+        badkey = keyed[exp[p][0]][1] if p < len(exp) else None
+        add_violation(res, dict(sigbase, kind="numbering", group="empty-value" if badkey is not None and "" in badkey else "plain"),
+                      f"mlr {' '.join(argv)} on {n} records: per-group numbering differs from 1..n at keyed output record {p + 1} "
+                      f"(group {badkey}: expected {exp[p] if p < len(exp) else None}, got {seen[p] if p < len(seen) else None})",
                       dict(argv=argv, stdin=_short(stdin), expected=exp[max(0, p - 3):p + 5], got=seen[max(0, p - 3):p + 5]))
     else:
         bump(res, "model_checked")
     if any(k is None for _, k in keyed):
-        res["skipped"] += 1   # the keyless records of this case were not judged
+        bump(res, "catn_cases_with_field_lacking_records")   # those records themselves are not judged
+    if any(k is None for _, k in keyed) and any(k is not None and "" in k for _, k in keyed):
+        bump(res, "catn_cases_mixing_empty_value_and_missing_field")
     res["nontrivial"] = n > 1 and len({k for _, k in keyed if k is not None}) >= 2 and max(cnt.values() or [0]) >= 2
     res["sample"] = {"monitor": "cat-n-g", "argv": argv, "n_records": n}
+    return res
+
+
+# ---- count-similar -g: membership of groups (empty value = a group, missing field = no group) ------------
+
+def csim_case(case):
+    rng = random.Random(case["seed"])
+    n, b, g = case["n"], case["b"], case["g"]
+    recs = mk_records(rng, n, case.get("ragged", 0.0), False, case.get("empty_mix", 0.0))
+    oname = case.get("oname")
+    argv = (["--records-per-batch", str(b)] if b else []) + ["count-similar", "-g", ",".join(g)] + (["-o", oname] if oname else [])
+    sigbase = {"verb": "count-similar", "form": "o" if oname else "default"}
+    res = case_result(_h("csim", g, n, b, oname, case.get("empty_mix"), case["seed"]))
+    bump(res, "verb:count-similar")
+    stdin = text_of(recs)
+    r = _run(argv, stdin, res, {"sigbase": sigbase, "n": n})
+    if r is None:
+        return res
+    got = split_out(r.stdout)
+    members = {}
+    for i, x in enumerate(recs):
+        key = gkey(x, g)
+        if key is not None:
+            members.setdefault(key, []).append(i)
+    # "emits each record augmented by a count of the number of ... records having the same group-by field values":
+    # records grouped in first-appearance order, input order within a group, count appended as the last field
+    exp = [line_of(recs[i]) + f",{oname or 'count'}={len(idxs)}" for key, idxs in members.items() for i in idxs]
+    if got != exp:
+        p = 0
+        while p < len(got) and p < len(exp) and got[p] == exp[p]:
+            p += 1
+        add_violation(res, dict(sigbase, kind="selection"),
+                      f"mlr {' '.join(argv)} on {n} records: output differs from the model at line {p + 1} ({len(got)} lines, model "
+                      f"{len(exp)}): got {got[p][:80] if p < len(got) else '<eof>'!r}, expected {exp[p][:80] if p < len(exp) else '<eof>'!r}",
+                      dict(argv=argv, stdin=_short(stdin), expected=exp[:40], got=got[:40]))
+    else:
+        bump(res, "model_checked")
+    if case.get("empty_mix"):
+        bump(res, "cases_mixing_empty_value_and_missing_field")
+    res["nontrivial"] = n > 1 and len(members) >= 2 and 0 < len(exp) and (len(exp) < n or [l.rsplit(",", 1)[0] for l in exp] != [line_of(x) for x in recs])
+    res["sample"] = {"monitor": "count-similar", "argv": argv, "n_records": n, "n_out": len(got)}
     return res
 
 
@@ -1112,6 +1162,22 @@ def sel_cases(chk):
             c["k"] = crng.choice(["1", "2", "-1", "+2"]) if verb == "tail" else crng.choice(["1", "2", "-1"])
             c["form"] = ("plus" if c["k"].startswith("+") else "neg" if c["k"].startswith("-") else "nonneg") + "-g"
         add(c)
+    # empty value vs missing field in ONE stream, for every -g verb of this monitor
+    erng = chk.rng("emptymix")
+    for i in range(96 if q else 600):
+        verb = ["head", "tail", "decimate", "group-by"][i % 4]
+        n = erng.choice([2, 5, 13, 60, 501])
+        c = {"verb": verb, "n": n, "g": [["a"], ["b"], ["a", "b"], ["b", "a"]][(i // 4) % 4], "ragged": erng.choice([0.2, 0.35]),
+             "empty_mix": erng.choice([0.25, 0.5]), "b": erng.choice([1, 500])}
+        if verb == "decimate":
+            c["m"], c["which"] = erng.choice([1, 2, 3]), erng.choice(["", "-b", "-e"])
+            c["form"] = (c["which"] or "default") + "-g"
+        elif verb == "group-by":
+            c["form"] = f"{len(c['g'])}-fields"
+        else:
+            c["k"] = erng.choice(["1", "2", "3", "-1", "-2"] + (["+2", "+3"] if verb == "tail" else []))
+            c["form"] = ("plus" if c["k"].startswith("+") else "neg" if c["k"].startswith("-") else "nonneg") + "-g"
+        add(c)
     nother = 360 if q else 1500
     others = ["tac", "nothing", "group-by", "group-like", "having-fields", "grep"]
     for i in range(nother):
@@ -1148,6 +1214,15 @@ def other_cases(chk):
         g, rag = rng.choice(G_SPECS[1:])
         catn.append({"n": rng.choice(NS), "b": rng.choice([1, 500]), "g": g, "ragged": rag,
                      "name": rng.choice([None, None, "idx"]), "seed": f"{chk.seed}/{chk.tier}/catn/{i}"})
+    # streams that mix empty-valued and field-lacking records: single field, -N name, two fields (one empty / one missing)
+    gm = [["a"], ["b"], ["a", "b"], ["b", "a"]]
+    for i in range(48 if q else 400):
+        catn.append({"n": rng.choice([2, 5, 13, 60, 501]), "b": rng.choice([1, 500, 0]), "g": gm[i % 4], "ragged": rng.choice([0.2, 0.35]),
+                     "empty_mix": rng.choice([0.25, 0.5]), "name": [None, "idx"][(i // 4) % 2], "seed": f"{chk.seed}/{chk.tier}/catn/mix{i}"})
+    csim = []
+    for i in range(32 if q else 300):
+        csim.append({"n": rng.choice([0, 1, 2, 5, 13, 60, 501]), "b": rng.choice([1, 500, 0]), "g": gm[i % 4], "ragged": rng.choice([0.0, 0.2, 0.35]),
+                     "empty_mix": rng.choice([0.0, 0.25, 0.5]), "oname": [None, "cnt"][(i // 4) % 2], "seed": f"{chk.seed}/{chk.tier}/csim/{i}"})
     for i in range(120 if q else 900):
         verb = ["sample", "bootstrap", "shuffle"][i % 3]
         n = rng.choice(NS)
@@ -1178,7 +1253,7 @@ def other_cases(chk):
         laws.append({"law": law, "n": n, "k": k, "g": g, "ragged": rag, "b": rng.choice([1, 500]),
                      "pat": rng.choice(GREPS)[1], "j": rng.choice([0, 1, 2, 5]), "mseed": rng.randint(1, 10 ** 6),
                      "seed": f"{chk.seed}/{chk.tier}/law/{i}"})
-    return dup, catn, rnd, laws
+    return dup, catn, csim, rnd, laws
 
 
 def run(chk):
@@ -1193,11 +1268,13 @@ def run(chk):
                 "non-identity permutation); distinct = hash of (verb, arguments, N, group spec, batch size, data seed).")
     if not only or "sel" in only:
         chk.pmap(sel_case, sel_cases(chk), chunksize=4, label="sel head/tail/decimate/tac/group/having/grep")
-    dup, catn, rnd, laws = other_cases(chk)
+    dup, catn, csim, rnd, laws = other_cases(chk)
     if not only or "dup" in only:
         chk.pmap(dup_case, dup, chunksize=4, label="uniq -a / skip-trivial-records")
     if not only or "catn" in only:
         chk.pmap(catn_case, catn, chunksize=2, label="cat -n -g")
+    if not only or "csim" in only:
+        chk.pmap(csim_case, csim, chunksize=2, label="count-similar -g")
     if not only or "rand" in only:
         chk.pmap(rand_case, rnd, chunksize=4, label="sample/bootstrap/shuffle")
     if not only or "filter" in only:
@@ -1250,6 +1327,11 @@ def run(chk):
         "The observed side is counted in observed.absent_records_*",
         "regexes are drawn from a literal-safe subset on which Go RE2 and Python re agree (ASCII data)",
         "uniq -a compares records as ordered lists of key/value texts (1 and 1.0 differ); -d/-u do not exist for -a in this binary",
-        "cat -n -g: what happens to records lacking the group-by field is undocumented and not judged (counted in observed)",
+        "cat -n/-N -g: every group that has the field(s), including the empty-string group, must be numbered exactly 1..n in stream "
+        "order (so field-lacking records may not consume or share a real group's numbers); what cat does with the field-lacking "
+        "records themselves is not settled by `mlr cat --help` and is not judged (counted in observed); inputs mix empty-valued and "
+        "field-lacking records on purpose",
+        "count-similar -g: output = records having the fields, grouped in first-appearance order, with count=<group size> appended "
+        "(`mlr count-similar --help`); here only membership / order / the count of each record's own group are judged",
         "sample / bootstrap / shuffle: only subset / multiset / permutation and count laws; no statistical test of uniformity",
     ]
